@@ -2,6 +2,7 @@ import Proofs.Small
 import Proofs.Resolve
 import Proofs.WeMapRun
 import Proofs.HeadlinesAll
+import Proofs.DerivedOps
 /-! C04 — webentity resolution is longest-prefix match over the net prefix edits, in full: in every reachable
     state resolution returns the id at the longest stem-prefix of the query that carries one (`C04_resolve`,
     Proofs/Resolve), and over histories the attachment map is exactly the fold of the abstract edits
@@ -140,6 +141,23 @@ theorem C04_delete {s : State} {t : T} (h : Shape s t) (w : Nat) (ps : List Byte
     (¬ deleteOk s.weMap w ps →
       (s.deleteWebentity w ps).2 = .error .traph ∧ (s.deleteWebentity w ps).1 = s) :=
   Traph.deleteWebentity_spec h w ps hne
+
+/-- `delete_webentity(…, check_for_corruption=False)` (not a constructor of `Op`; modelled as `deleteUnchecked` and run by
+    the driver): when every listed prefix is in the index it IS the run of `remove_prefix_from_webentity(p)` over the
+    distinct prefixes in order of first occurrence — same index, same write log — so every history theorem covers it -/
+theorem C04_delete_unchecked {s : State} {t : T} (hs : Shape s t) (ps : List Bytes)
+    (hloc : ∀ p ∈ ps, s.lruNode (lruIter p) ≠ none) :
+    s.deleteUnchecked ps = (s.run ((dedupKeys ps).map (fun p => Op.removePrefix p none)), .ok ()) :=
+  Traph.deleteUnchecked_eq_run hs ps hloc
+
+/-- …and when some prefix is not in the index it fails with Python's AttributeError having detached exactly the distinct
+    prefixes before the first such one (the unchecked deletion is not atomic) -/
+theorem C04_delete_unchecked_fails {s : State} {t : T} (hs : Shape s t) (ps : List Bytes)
+    (hmiss : ∃ p ∈ ps, s.lruNode (lruIter p) = none) :
+    ∃ before p rest, dedupKeys ps = before ++ p :: rest ∧ s.lruNode (lruIter p) = none ∧
+      (∀ q ∈ before, s.lruNode (lruIter q) ≠ none) ∧
+      s.deleteUnchecked ps = (s.run (before.map (fun q => Op.removePrefix q none)), .error (.other "AttributeError")) :=
+  Traph.deleteUnchecked_fail hs ps hmiss
 
 section EveryHistory
 open Traph State Pag Layout
